@@ -1,6 +1,7 @@
 package main
 
 import (
+	"strings"
 	"fmt"
 	"go/types"
 
@@ -25,6 +26,7 @@ type envState struct {
 	inTask    int
 	onQuiet   Value
 	taskGates []string
+	curTask   *task
 	seq       int
 }
 
@@ -33,6 +35,7 @@ type task struct {
 	args  []Value
 	label string
 	cc    *ssa.CallCommon
+	spawnSeq int
 }
 
 type inflightOp struct{} // kept for ChanObj compatibility
@@ -143,7 +146,7 @@ func (p *Path) chanRecv(c ChanV, commaOk bool) Value {
 			}
 			p.blocked("receive would block forever on channel " + ch.label)
 		}
-		p.runTask(p.choose(len(e.tasks), "task"))
+		p.runTask(0)
 	}
 	v, ok := p.chanTake(ch)
 	if commaOk {
@@ -173,7 +176,8 @@ func (p *Path) doGo(fr *Frame, x *ssa.Go) {
 		label = f.fn.String()
 	}
 	e := p.envst()
-	e.tasks = append(e.tasks, &task{fn: fv, args: args, label: label, cc: cc})
+	e.seq++
+	e.tasks = append(e.tasks, &task{fn: fv, args: args, label: label, cc: cc, spawnSeq: e.seq})
 }
 
 func (p *Path) runTask(i int) {
@@ -182,9 +186,12 @@ func (p *Path) runTask(i int) {
 	e.tasks = append(append([]*task{}, e.tasks[:i]...), e.tasks[i+1:]...)
 	e.inTask++
 	saved := e.taskGates
+	savedTask := e.curTask
+	e.curTask = t
 	e.taskGates = nil
 	defer func() {
 		e.inTask--
+		e.curTask = savedTask
 		if len(e.taskGates) > 0 {
 			// the task ended without handing a result to any channel: its steps happen now
 			p.log = append(p.log, e.taskGates...)
@@ -223,6 +230,14 @@ func (p *Path) selectOp(fr *Frame, x *ssa.Select) Value {
 		return res
 	}
 	counted := false
+	// only selects that listen to the environment are steps of the loop under test; incidental
+	// selects (lifecycle helpers etc.) neither consume the budget nor define quiescence
+	isLoopSelect := false
+	for _, s := range states {
+		if !s.send && s.ch != nil && s.ch.envGen != nil {
+			isLoopSelect = true
+		}
+	}
 	for {
 		var ready []int
 		for i, s := range states {
@@ -234,7 +249,7 @@ func (p *Path) selectOp(fr *Frame, x *ssa.Select) Value {
 			if len(ready) == 0 {
 				return mkResult(-1, nil, false)
 			}
-		} else if e.inTask == 0 && e.stepsSet && !counted {
+		} else if e.inTask == 0 && e.stepsSet && !counted && isLoopSelect {
 			counted = true
 			e.stepsLeft--
 			if e.stepsLeft < 0 {
@@ -250,13 +265,30 @@ func (p *Path) selectOp(fr *Frame, x *ssa.Select) Value {
 				}
 				ready = fin
 				idx := ready[p.choose(len(ready), "select")]
+				e.stepsSet = false // shutdown has been delivered: the budget has done its job
 				v, ok := p.chanTake(states[idx].ch)
 				return mkResult(idx, v, ok)
 			}
 		}
+		// pending goroutines complete in spawn order (FIFO): at most the oldest one is offered
 		ntasks := 0
-		if e.inTask == 0 {
-			ntasks = len(e.tasks)
+		if e.inTask == 0 && len(e.tasks) > 0 {
+			ntasks = 1
+		}
+		// the environment may also stay silent forever: if only shutdown could still happen and no
+		// goroutine is pending, "idle" is one more alternative (the harness's liveness oracle runs)
+		idleOpt := 0
+		if isLoopSelect && ntasks == 0 && e.onQuiet != nil && e.inTask == 0 {
+			onlyEnv := true
+			for _, i := range ready {
+				ch := states[i].ch
+				if states[i].send || len(ch.buf) > 0 || ch.closed || ch.envGen == nil {
+					onlyEnv = false // something internal is ready: the loop cannot be idle here
+				}
+			}
+			if onlyEnv {
+				idleOpt = 1
+			}
 		}
 		if len(ready)+ntasks == 0 {
 			if e.inTask > 0 {
@@ -264,15 +296,21 @@ func (p *Path) selectOp(fr *Frame, x *ssa.Select) Value {
 			}
 			p.quiescent("nothing can happen any more")
 		}
-		c := p.choose(len(ready)+ntasks, "select")
+		c := p.choose(len(ready)+ntasks+idleOpt, "select")
+		if c >= len(ready)+ntasks {
+			p.quiescent("environment stays silent")
+		}
 		if c >= len(ready) {
-			p.runTask(c - len(ready))
+			p.runTask(0)
 			continue // re-evaluate readiness with the task's effects
 		}
 		idx := ready[c]
 		if states[idx].send {
 			p.chanPut(states[idx].ch, states[idx].val)
 			return mkResult(idx, nil, false)
+		}
+		if states[idx].ch.final {
+			e.stepsSet = false
 		}
 		v, ok := p.chanTake(states[idx].ch)
 		return mkResult(idx, v, ok)
@@ -286,7 +324,6 @@ func (p *Path) quiescent(why string) {
 	if e.onQuiet != nil {
 		cb := e.onQuiet
 		e.onQuiet = nil
-		p.reached = append(p.reached, "quiescent")
 		e.inTask++ // selects inside the callback must not recurse into scheduling
 		p.callValue(cb, nil, nil, nil)
 		e.inTask--
@@ -349,6 +386,36 @@ func init() {
 		o := p.choose(n, "pick:"+label)
 		p.log = append(p.log, fmt.Sprintf("%s:%d", label, o))
 		return mkInt64(int64(o))
+	})
+	reg("verif_StubFunc", func(p *Path, fn *ssa.Function, a []Value) Value {
+		if p.stubs == nil {
+			p.stubs = map[string]Value{}
+		}
+		p.stubs[p.strArg(a[0])] = a[1].(IfaceV).v
+		return nil
+	})
+	reg("verif_Clock", func(p *Path, fn *ssa.Function, a []Value) Value {
+		e := p.envst()
+		e.seq++
+		return mkInt64(int64(e.seq))
+	})
+	reg("verif_StartSeq", func(p *Path, fn *ssa.Function, a []Value) Value {
+		e := p.envst()
+		if e.inTask > 0 && e.curTask != nil {
+			return mkInt64(int64(e.curTask.spawnSeq))
+		}
+		e.seq++
+		return mkInt64(int64(e.seq))
+	})
+	reg("verif_TasksMatching", func(p *Path, fn *ssa.Function, a []Value) Value {
+		sub := p.strArg(a[0])
+		n := 0
+		for _, t := range p.envst().tasks {
+			if strings.Contains(t.label, sub) {
+				n++
+			}
+		}
+		return mkInt64(int64(n))
 	})
 	reg("verif_ChanLog", func(p *Path, fn *ssa.Function, a []Value) Value {
 		// number of values ever sent on the channel
